@@ -12,10 +12,12 @@ import (
 	"fmt"
 	"math"
 	"net/http"
+	"net/http/httptest"
 	"net/url"
 	"os"
 	"regexp"
 	"strings"
+	"sync"
 	"time"
 
 	c "github.com/buzzfeed/sso/internal/zz_verif/common"
@@ -380,6 +382,10 @@ func lowerTab(strs ...string) string {
 }
 
 func (w *world) hcase(login string, steps []stepObs, strs []string) c.Case {
+	return w.hcaseConc(login, steps, strs, false)
+}
+
+func (w *world) hcaseConc(login string, steps []stepObs, strs []string, conc bool) c.Case {
 	var sc []string
 	var sj []interface{}
 	for _, s := range steps {
@@ -387,9 +393,9 @@ func (w *world) hcase(login string, steps []stepObs, strs []string) c.Case {
 		sj = append(sj, s.json)
 	}
 	all := append(append(append([]string{}, strs...), w.Pol.Addrs...), w.Pol.Doms...)
-	coq := fmt.Sprintf("{| h_cfg := %s; h_pol := %s; h_tab := %s; h_login := %s; h_steps := %s |}",
-		w.coqCfg(), w.coqPol(), lowerTab(all...), login, c.List(sc))
-	return c.Case{Coq: coq, JSON: map[string]interface{}{"policy": w.Pol, "L": w.L, "V": w.V, "G": w.G, "login": login, "steps": sj}}
+	coq := fmt.Sprintf("{| h_cfg := %s; h_pol := %s; h_tab := %s; h_login := %s; h_conc := %s; h_steps := %s |}",
+		w.coqCfg(), w.coqPol(), lowerTab(all...), login, c.Bool(conc), c.List(sc))
+	return c.Case{Coq: coq, JSON: map[string]interface{}{"policy": w.Pol, "L": w.L, "V": w.V, "G": w.G, "login": login, "concurrent": conc, "steps": sj}}
 }
 
 // margin: keep every deadline comparison at least 30 s away from the virtual clock
@@ -415,7 +421,7 @@ func settle(vnow int64, s *vsession, G int64) int64 {
 	return vnow
 }
 
-var emails = []string{"a@example.com", "b@other.com", "Bob@Example.COM", "bob@b.com"}
+var emails = []string{"a@example.com", "b@other.com", "Bob@Example.COM", "bob@b.com", "m@evilexample.com", "m@sub.example.com"}
 
 func genSession(r *c.Rng, w *world, vnow int64) *vsession {
 	off := func(opts ...int64) int64 { return vnow + opts[r.Intn(len(opts))]*sec }
@@ -508,6 +514,170 @@ func single(r *c.Rng, auth *c.FakeAuth, worlds []*world) c.Case {
 	a := genAns(r, 0.45)
 	o := w.step(auth, vnow, rq, a)
 	return w.hcase("None", []stepObs{o}, []string{rq.Sess.Email})
+}
+
+
+// ---- concurrent pairs: two requests in flight at once -------------------------------------------
+// Request B is started first and its first back-channel call is held at the fake authenticator;
+// then request A is started. On the unchanged tree A and B are decided independently (different
+// single-flight keys, or different upstreams = different single-flight groups), so A's own call
+// arrives and everything is released at once; if A is (wrongly) coalesced with B it never calls and
+// the hold is released after a short wait. Answers are keyed by access / refresh token.
+type tokAns struct {
+	ValidateStatus int
+	Groups         []string
+	RefreshStatus  int
+	NewTok         string
+}
+
+func (w *world) pair(r *c.Rng, auth *c.FakeAuth) c.Case {
+	vnow := int64(1000000) * sec
+	email := emails[r.Intn(2)]
+	mk := func(tok, rtok, up string) *vsession {
+		return &vsession{Slug: "google", Email: email, User: "u", Access: tok, RefreshTok: rtok,
+			RefreshDL: vnow + 3600*sec, LifetimeDL: vnow + 86400*sec, ValidDL: vnow - 120*sec, Groups: []string{}, Upstream: up}
+	}
+	hostB := host
+	crossUpstream := r.Chance(0.5)
+	if crossUpstream {
+		hostB = decoyHost
+	}
+	tokA, tokB := "tok-A", "tok-B"
+	if crossUpstream && r.Chance(0.6) {
+		tokB = tokA // the same user's sessions on two upstreams carry the same access token
+	}
+	sa, sb := mk(tokA, "rt-A", host), mk(tokB, "rt-B", hostB)
+	if r.Chance(0.3) { // refresh path instead of validation
+		sa.RefreshDL, sb.RefreshDL = vnow-600*sec, vnow-600*sec
+		if !crossUpstream || r.Chance(0.5) {
+			sb.RefreshTok = "rt-B"
+		} else {
+			sb.RefreshTok = sa.RefreshTok
+		}
+	}
+	good := tokAns{ValidateStatus: 200, Groups: []string{"g1"}, RefreshStatus: 201, NewTok: "at2"}
+	bad := []tokAns{{ValidateStatus: 401, Groups: []string{"g1"}, RefreshStatus: 401}, {ValidateStatus: 200, Groups: []string{"other"}, RefreshStatus: 201, NewTok: "at2"},
+		{ValidateStatus: 403, Groups: []string{"g1"}, RefreshStatus: 500}}[r.Intn(3)]
+	ansA, ansB := bad, good
+	if r.Chance(0.25) {
+		ansA = good
+	}
+	if tokA == tokB {
+		// one token: the authenticator can only give one verdict about it; what differs is the upstream's group rule
+		ansA = tokAns{ValidateStatus: 200, Groups: []string{"other"}, RefreshStatus: 201, NewTok: "at2"}
+		ansB = ansA
+	}
+	byTok := map[string]tokAns{tokA: ansA, tokB: ansB, "rt-A": ansA, "rt-B": ansB, "at2": ansA}
+	if tokA != tokB {
+		byTok["at2"] = good
+	}
+	var mu sync.Mutex
+	arrived := 0
+	release := make(chan struct{})
+	auth.SetFn(func(ep string, rq *http.Request) *c.Answer {
+		mu.Lock()
+		arrived++
+		mu.Unlock()
+		<-release
+		key := rq.Header.Get("X-Access-Token")
+		if ep == "refresh" {
+			key = rq.Form.Get("refresh_token")
+		}
+		ta, ok := byTok[key]
+		if !ok {
+			return &c.Answer{Status: 500, Body: "unknown token"}
+		}
+		switch ep {
+		case "validate":
+			return &c.Answer{Status: ta.ValidateStatus, Body: "{}"}
+		case "profile":
+			return &c.Answer{Status: 200, Body: c.JSONBody(map[string]interface{}{"email": email, "groups": ta.Groups})}
+		case "refresh":
+			return &c.Answer{Status: ta.RefreshStatus, Body: c.JSONBody(map[string]interface{}{"access_token": ta.NewTok, "expires_in": 3600})}
+		}
+		return nil
+	})
+	defer auth.SetFn(nil)
+	w.B.Take()
+	type res struct {
+		rec  *httptest.ResponseRecorder
+		real time.Time
+	}
+	do := func(s *vsession, h, path string, out chan res) {
+		req := c.NewReq("GET", h, path)
+		real := time.Now()
+		req.AddCookie(&http.Cookie{Name: w.W.CookieName, Value: w.W.Seal(toReal(s, vnow, real))})
+		out <- res{w.W.Do(req), real}
+	}
+	chB, chA := make(chan res, 1), make(chan res, 1)
+	pathB := "/x/dataB"
+	if crossUpstream {
+		pathB = "/y/dataB" // the decoy upstream whitelists ^/x/
+	}
+	go do(sb, hostB, pathB, chB)
+	waitArrived := func(n int, d time.Duration) {
+		deadline := time.Now().Add(d)
+		for time.Now().Before(deadline) {
+			mu.Lock()
+			a := arrived
+			mu.Unlock()
+			if a >= n {
+				return
+			}
+			time.Sleep(2 * time.Millisecond)
+		}
+	}
+	t0 := time.Now()
+	waitArrived(1, 2*time.Second)
+	t1 := time.Now()
+	go do(sa, host, "/x/dataA", chA)
+	waitArrived(2, 300*time.Millisecond)
+	t2 := time.Now()
+	close(release)
+	rb, ra := <-chB, <-chA
+	if os.Getenv("VERIF_DEBUG") != "" {
+		fmt.Fprintf(os.Stderr, "pair cross=%v same=%v: waitB %v waitA %v finish %v\n", crossUpstream, tokA == tokB, t1.Sub(t0), t2.Sub(t1), time.Since(t2))
+	}
+	seen := w.B.Take()
+	servedOn := func(path string) bool {
+		for _, q := range seen {
+			if strings.HasPrefix(q.URI, path) {
+				return true
+			}
+		}
+		return false
+	}
+	obs := func(s *vsession, h string, rr res, served bool, ta tokAns, up *world) stepObs {
+		eff, val := c.CookieEffect(rr.rec, w.W.CookieName)
+		effCoq := "CNone"
+		switch eff {
+		case "cleared":
+			effCoq = "CCleared"
+		case "set":
+			if o := w.W.Open(val); o != nil {
+				effCoq = "(CSaved " + fromReal(o, vnow, rr.real).coq() + ")"
+			}
+		}
+		loc := rr.rec.Header().Get("Location")
+		signin := strings.HasPrefix(loc, auth.Srv.URL+"/"+w.Slug+"/sign_in")
+		a := ans{RefreshStatus: ta.RefreshStatus, RefreshTok: ta.NewTok, RefreshDur: 3600, ValidateStatus: ta.ValidateStatus, ProfileStatus: 200, ProfileGroups: ta.Groups}
+		if s.RefreshDL < vnow && ta.RefreshStatus == 201 && tokA != tokB {
+			// after a refresh the group lookup is made with the NEW token, whose answer is `good`
+			a.ProfileGroups = good.Groups
+		}
+		coq := fmt.Sprintf("{| o_now := %s; o_req := {| r_host := %s; r_is_options := false; r_skip_hit := false; r_xhr := false; r_endpoint := EProxy; r_cookie := (Sealed %s) |}; o_ans := %s; o_served := %s; o_status := %s; o_signin := %s; o_cookie := %s; o_calls := []; o_issued_at := None |}",
+			c.Z(secs(vnow)), c.Str(h), s.coq(), a.coq(), c.Bool(served), c.Z(int64(rr.rec.Code)), c.Bool(signin), effCoq)
+		return stepObs{coq: coq, json: map[string]interface{}{"host": h, "session": s.json(), "answers": a, "served": served, "status": rr.rec.Code, "cookie_effect": eff}}
+	}
+	// Only request A (on the world's own upstream) is judged: B runs on the decoy upstream when crossUpstream,
+	// whose policy is not this case's policy.
+	steps := []stepObs{obs(sa, host, ra, servedOn("/x/dataA"), ansA, w)}
+	if !crossUpstream {
+		steps = append(steps, obs(sb, hostB, rb, servedOn(pathB), ansB, w))
+	}
+	cs := w.hcaseConc("None", steps, []string{email}, true)
+	cs.JSON.(map[string]interface{})["pair"] = map[string]interface{}{"cross_upstream": crossUpstream, "same_token": tokA == tokB}
+	return cs
 }
 
 var dts = []int64{0, 60, 60, 300, 300, 660, 660, 1860, 3660, 7260, 40000}
@@ -614,6 +784,17 @@ func history(r *c.Rng, auth *c.FakeAuth, worlds []*world, linear bool, maxLen in
 	return w.hcase("(Some "+c.Z(secs(t0))+")", steps, []string{email})
 }
 
+// worlds whose own upstream has a real group rule (pairs need the authenticator to be asked about groups)
+func groupWorlds(ws []*world) []*world {
+	var out []*world
+	for _, w := range ws {
+		if len(w.Pol.Groups) > 0 && w.Pol.Groups[0] != "*" && len(w.Pol.Doms) == 0 && len(w.Pol.Addrs) == 0 {
+			out = append(out, w)
+		}
+	}
+	return out
+}
+
 func main() {
 	a := c.ParseArgs()
 	c.Quiet()
@@ -651,6 +832,10 @@ func main() {
 			corr = "Corr_C01"
 		}
 		for i := 0; i < a.N; i++ {
+			if i%25 == 7 {
+				cases = append(cases, groupWorlds(worlds)[r.Intn(len(groupWorlds(worlds)))].pair(r, auth))
+				continue
+			}
 			cases = append(cases, single(r, auth, worlds))
 		}
 	case "history":
@@ -658,6 +843,10 @@ func main() {
 			corr = "Corr_C04"
 		}
 		for i := 0; i < a.N; i++ {
+			if i%6 == 3 {
+				cases = append(cases, groupWorlds(worlds)[r.Intn(len(groupWorlds(worlds)))].pair(r, auth))
+				continue
+			}
 			cases = append(cases, history(r, auth, worlds, false, 12))
 		}
 	case "linear":
